@@ -49,11 +49,15 @@ def translate():
          "the shutdown arm of handle_message"),
         ("let handlers = { let mut mgr = self.shutdown_manager.lock().unwrap(); std::mem::take(&mut mgr.handlers) }; "
          "for sender in handlers.values() { let _ = sender.send(()); }", "invoke_shutdown_handlers"),
-        ("let (s, r) = crossbeam_channel::bounded(1);", "add_shutdown_handler"),
         ("let (connection, io_threads) = Connection::stdio(); self.connection = Some((Arc::new(connection), Some(io_threads)));", "listen_stdio"),
     ]:
         if frag not in lsp:
             raise ShapeError("lsp/mod.rs: %s changed shape" % what)
+    m = re.search(r"pub fn add_shutdown_handler\(&mut self\) -> ShutdownReceiverHandle \{ let \(s, r\) = crossbeam_channel::(bounded\((\d+)\)|unbounded\(\));", lsp)
+    if not m:
+        raise ShapeError("add_shutdown_handler: the handler channel is no longer created by crossbeam_channel::bounded(n) / unbounded()")
+    v["handler_rendezvous"] = m.group(2) is not None and int(m.group(2)) == 0
+    # both callers of invoke_shutdown_handlers hold the context lock: `ctx` of handle_message, `self.lsp.lock()` in DebugServer::join
     # ---- debug server
     dbg = norm(non_test(read("mos/src/debugger/mod.rs")))
     if ("self.thread = Some(std::thread::spawn(move || { while !thread_shutdown.load(Ordering::Relaxed) { let mut dbg = DebugSession::new(lsp.clone(), port); "
@@ -138,8 +142,9 @@ def translate():
     out = ["(* GENERATED by translate/t_life.py from mos/src/{commands/lsp.rs,lsp/mod.rs,debugger/mod.rs,debugger/connection.rs}. DO NOT EDIT. *)",
            "From Mos Require Import model.Life.",
            "Definition life_variant : variant :=",
-           "  mkVariant %s %s %s %s %s %s %s." % (b(v["unwrap_ctx"]), b(v["conn_dropped_before_join"]), b(v["join_wakes"]), b(v["select_completes"]),
-                                               b(v["register_before_accept"]), b(v["join_tolerates_dead"]), b(v["recovers_poison"]))]
+           "  mkVariant %s %s %s %s %s %s %s %s." % (b(v["unwrap_ctx"]), b(v["conn_dropped_before_join"]), b(v["join_wakes"]), b(v["select_completes"]),
+                                                  b(v["register_before_accept"]), b(v["join_tolerates_dead"]), b(v["recovers_poison"]),
+                                                  b(v["handler_rendezvous"]))]
     fp = write_if_changed("LifeSites.v", "\n".join(out) + "\n")
     return {"file": "Gen/LifeSites.v", "fingerprint": fp, "variant": v, "holders": {k: list(x) for k, x in holders.items()}}
 
